@@ -8,6 +8,15 @@ use crate::linalg::{
 /// algorithm.
 pub fn cholesky(a: &[f64]) -> Vec<f64> {
     assert!(is_symmetric(a));
+    let (l, positive_definite) = cholesky_factor(a);
+    assert!(positive_definite, "matrix not positive definite");
+    l
+}
+
+/// Cholesky factor of a symmetric matrix together with a flag telling whether the matrix is positive
+/// definite. The factorisation stops at the first pivot that is not strictly positive (the factor is
+/// then incomplete and the flag is `false`).
+pub(crate) fn cholesky_factor(a: &[f64]) -> (Vec<f64>, bool) {
     let n = is_square(a).unwrap();
 
     let mut l = vec![0.; n * n];
@@ -17,18 +26,20 @@ pub fn cholesky(a: &[f64]) -> Vec<f64> {
             let s = dot(&l[(j * n)..(j * n + j)], &l[(i * n)..(i * n + j)]);
 
             if i == j {
-                l[i * n + j] = (a[i * n + i] - s).sqrt();
+                let d = a[i * n + i] - s;
+                if !(d > 0.) {
+                    return (l, false);
+                }
+                l[i * n + j] = d.sqrt();
             } else {
                 l[i * n + j] = (a[i * n + j] - s) / l[j * n + j];
             }
         }
     }
 
-    l
+    (l, true)
 }
 
-/// Solves the system Lx=b, where L is a lower triangular matrix (e.g., a Cholesky decomposed
-/// matrix), and b is a one dimensional vector.
 pub fn cholesky_solve(l: &[f64], b: &[f64]) -> Vec<f64> {
     let n = is_square(l).unwrap();
     assert_eq!(b.len(), n, "sizes of L and b do not match up");
